@@ -113,8 +113,10 @@ func (h *Session) findOrCreateHostWithLock(addr Addr) (host *Host, found bool) {
 	//optimise the common path
 	h.mutex.RLock()
 	if host, found = h.HostTable.Table[addr.IP]; found && bytes.Equal(host.MACEntry.MAC, addr.MAC) {
+		host.MACEntry.Row.Lock() // fields are protected by the row lock (session lock first, then row lock)
 		host.LastSeen = now
 		host.MACEntry.LastSeen = now
+		host.MACEntry.Row.Unlock()
 		h.mutex.RUnlock()
 		return host, true
 	}
@@ -140,16 +142,18 @@ func (h *Session) findOrCreateHostWithLock(addr Addr) (host *Host, found bool) {
 	host = &Host{Addr: Addr{IP: addr.IP, MAC: macEntry.MAC}, MACEntry: macEntry, Online: false} // set to false to trigger Online transition
 	host.dirty = true
 	host.Manufacturer = FindManufacturer(macEntry.MAC)
-	if host.Manufacturer != "" && host.Manufacturer != host.MACEntry.Manufacturer {
-		host.MACEntry.Manufacturer = host.Manufacturer
-	}
 	host.HuntStage = StageNormal
 	host.LastSeen = now
-	host.MACEntry.LastSeen = now
 	h.HostTable.Table[addr.IP] = host
 
-	// link host to macEntry
+	// link host to macEntry: the entry may be shared with hosts already visible to other goroutines
+	macEntry.Row.Lock()
+	if host.Manufacturer != "" && host.Manufacturer != macEntry.Manufacturer {
+		macEntry.Manufacturer = host.Manufacturer
+	}
+	macEntry.LastSeen = now
 	macEntry.HostList = append(macEntry.HostList, host)
+	macEntry.Row.Unlock()
 	return host, false
 }
 
@@ -158,9 +162,12 @@ func (h *Session) deleteHost(ip netip.Addr) {
 		if Logger.IsDebug() {
 			Logger.Msg("delete host").IP("ip", ip).Struct(host).Write()
 		}
+		host.MACEntry.Row.Lock()
 		host.MACEntry.unlink(host)
+		last := len(host.MACEntry.HostList) == 0
+		host.MACEntry.Row.Unlock()
 		delete(h.HostTable.Table, ip)
-		if len(host.MACEntry.HostList) == 0 { // delete if last host
+		if last { // delete if last host
 			h.MACTable.delete(host.MACEntry.MAC)
 		}
 		return
